@@ -21,8 +21,102 @@ Theorem sweep_ok_true (tt : arr T) (ttsgn : arr Z) (slow : arr T) dargs
   dirp sgnvz sgntz i nz -> dirp sgnvx sgntx j nx -> dirp sgnvy sgnty k ny ->
   sweep_ok true false tt ttsgn slow dargs i j k sgnvz sgnvx sgnvy sgntz sgntx sgnty nz nx ny grad = true.
 Proof.
-  intros Hnz Hnx Hny Htt Hslow Hsgn Di Dj Dk. unfold dirp in Di, Dj, Dk.
-  Time unfold sweep_ok.
-  Time ok_walk inb_solve.
-Time Qed.
+  intros Hnz Hnx Hny Htt Hslow Hsgn Di Dj Dk.
+  assert (Bi : 0 <= i - sgntz < nz /\ 0 <= i - sgnvz < nz - 1 /\ 0 <= i < nz) by (unfold dirp in Di; lia).
+  assert (Bj : 0 <= j - sgntx < nx /\ 0 <= j - sgnvx < nx - 1 /\ 0 <= j < nx) by (unfold dirp in Dj; lia).
+  assert (Bk : 0 <= k - sgnty < ny /\ 0 <= k - sgnvy < ny - 1 /\ 0 <= k < ny) by (unfold dirp in Dk; lia).
+  clear Di Dj Dk.
+  destruct grad; [ specialize (Hsgn eq_refl) | clear Hsgn ];
+  cbv beta delta [sweep_ok].
+  all: ok_walk inb_solve.
+Qed.
+
+(* ---------- what one sweep call does to the two arrays ---------- *)
+Lemma sweep_fst_shape (tt : arr T) ttsgn (slow : arr T) dargs
+      i j k sgnvz sgnvx sgnvy sgntz sgntx sgnty nz nx ny grad :
+  shape (fst (sweep tt ttsgn slow dargs i j k sgnvz sgnvx sgnvy sgntz sgntx sgnty nz nx ny grad)) = shape tt.
+Proof.
+  unfold sweep.
+  lazymatch goal with |- shape (fst (?a, _)) = _ => change (shape a = shape tt) end.
+  reflexivity.
+Qed.
+
+(* the sign array is left alone, or receives (a, b, c) at node (i, j, k), each component the direction
+   sign of its axis or 0 *)
+Lemma sweep_snd_char (tt : arr T) ttsgn (slow : arr T) dargs
+      i j k sgnvz sgnvx sgnvy sgntz sgntx sgnty nz nx ny grad :
+  let r := snd (sweep tt ttsgn slow dargs i j k sgnvz sgnvx sgnvy sgntz sgntx sgnty nz nx ny grad) in
+  r = ttsgn \/
+  (grad = true /\ exists a b c, (a = sgntz \/ a = 0) /\ (b = sgntx \/ b = 0) /\ (c = sgnty \/ c = 0) /\
+     r = set (set (set ttsgn [i; j; k; 0] a) [i; j; k; 1] b) [i; j; k; 2] c).
+Proof.
+  unfold sweep. cbv zeta.
+  lazymatch goal with |- snd (_, ?b) = _ \/ _ => change (snd (_, b)) with b end.
+  destruct grad; [ | left; reflexivity ].
+  cbn [andb].
+  lazymatch goal with |- (if ?c then _ else _) = _ \/ _ => destruct c end; [ | left; reflexivity ].
+  right. split; [ reflexivity | ].
+  repeat lazymatch goal with
+  | |- exists a b c, _ /\ _ /\ _ /\ (if ?cond then _ else _) = _ => destruct cond
+  end;
+  (do 3 eexists; refine (conj _ (conj _ (conj _ eq_refl))); auto).
+Qed.
+
+Lemma sweep_snd_shape (tt : arr T) ttsgn (slow : arr T) dargs
+      i j k sgnvz sgnvx sgnvy sgntz sgntx sgnty nz nx ny grad :
+  shape (snd (sweep tt ttsgn slow dargs i j k sgnvz sgnvx sgnvy sgntz sgntx sgnty nz nx ny grad)) = shape ttsgn.
+Proof.
+  destruct (sweep_snd_char tt ttsgn slow dargs i j k sgnvz sgnvx sgnvy sgntz sgntx sgnty nz nx ny grad)
+    as [-> | (_ & a & b & c & _ & _ & _ & ->)]; reflexivity.
+Qed.
+
+(* ---------- one sweep3d ---------- *)
+Section Loops.
+Variables (nz nx ny : Z) (grad : bool).
+(* loop invariant: the shapes of the two arrays carried through the loops *)
+Definition shp (s : arr T * arr Z) : Prop :=
+  shape (fst s) = [nz; nx; ny] /\ (grad = true -> shape (snd s) = [nz; nx; ny; 3]).
+Lemma shp_eta s : shp s -> shp (fst s, snd s).
+Proof. intros Hs. exact Hs. Qed.
+Lemma shp_sweep tt ttsgn (slow : arr T) dargs i j k sgnvz sgnvx sgnvy sgntz sgntx sgnty :
+  shp (tt, ttsgn) ->
+  shp (fst (sweep tt ttsgn slow dargs i j k sgnvz sgnvx sgnvy sgntz sgntx sgnty nz nx ny grad),
+       snd (sweep tt ttsgn slow dargs i j k sgnvz sgnvx sgnvy sgntz sgntx sgnty nz nx ny grad)).
+Proof. intros [H1 H2]. split; cbn [fst snd] in *; [ rewrite sweep_fst_shape | rewrite sweep_snd_shape ]; auto. Qed.
+End Loops.
+
+Ltac shp_solve :=
+  cbv beta;
+  lazymatch goal with
+  | |- shp _ _ _ _ (for_list _ _ _) => apply for_list_inv; [ shp_solve | intros ? ? ? ?; shp_solve ]
+  | |- shp _ _ _ _ (fst ?x, snd ?x) =>
+      first [ assumption | apply shp_sweep; shp_solve | apply shp_eta; shp_solve ]
+  | |- _ => assumption
+  end.
+
+Theorem sweep3d_ok_true (tt : arr T) (ttsgn : arr Z) (slow : arr T) (dz dx dy : T) nz nx ny grad :
+  2 <= nz -> 2 <= nx -> 2 <= ny ->
+  shape tt = [nz; nx; ny] -> shape slow = [nz - 1; nx - 1; ny - 1] ->
+  (grad = true -> shape ttsgn = [nz; nx; ny; 3]) ->
+  sweep3d_ok true false tt ttsgn slow dz dx dy nz nx ny grad = true.
+Proof.
+  intros Hnz Hnx Hny Htt Hslow Hsgn.
+  assert (H0 : shp nz nx ny grad (tt, ttsgn)) by (split; assumption).
+  unfold sweep3d_ok.
+  repeat lazymatch goal with
+  | |- true = true => reflexivity
+  | |- andb _ _ = true => apply andb_true_intro; split
+  | |- obD false _ = true => reflexivity
+  | |- for_list_ok _ _ _ _ = true =>
+      apply for_list_ok_inv with (P := shp nz nx ny grad);
+      [ shp_solve | intros ? ? ? ?; cbv beta; split; [ shp_solve | ] ]
+  | |- sweep_ok _ _ _ _ _ _ _ _ _ _ _ _ _ _ _ _ _ _ _ = true =>
+      range_hyps;
+      match goal with Hs : shp _ _ _ _ ?s |- sweep_ok _ _ (fst ?s) _ _ _ _ _ _ _ _ _ _ _ _ _ _ _ _ = true =>
+        destruct Hs as [Hs1 Hs2]; apply sweep_ok_true; auto; unfold dirp; lia end
+  end.
+Qed.
 End S3.
+
+Print Assumptions sweep_ok_true.
+Print Assumptions sweep3d_ok_true.
